@@ -28,6 +28,8 @@ def dec(k):
         return [bool(x) for x in k['v']] if t == 'boollist' else np.array(k['v'], dtype=bool)
     if t == 'ell':
         return Ellipsis
+    if t == 'nested':
+        return [list(x) for x in k['v']]
     if t == 'npmask':
         return np.array(k['v'], dtype=bool)
     if t == 'npint':
@@ -98,6 +100,16 @@ def col_positions(cols, names):
         return np.array(m, dtype=bool), [i for i, b in enumerate(m) if b], False
     if t == 'ell':
         return Ellipsis, list(range(D)), False
+    if t == 'nested':
+        # a list of lists: NumPy's own (2-D fancy) semantics for the values, no claim about metadata
+        def rec(x):
+            if isinstance(x, list):
+                return [rec(y) for y in x]
+            p = one(x)
+            if not -D <= p < D:
+                raise Refused('position out of range')
+            return p
+        return rec(list(cols['v'])), None, False
     raise ValueError(t)
 
 
@@ -130,6 +142,8 @@ def m_getitem(h, rows, cols):
             return MHandle(v, None, 'other')
         ck, pos, scalar = col_positions(cols, h.names)
         v = h.vals[r, ck] if cols['t'] != 'ell' else h.vals[r, ...]
+        if pos is None:
+            return MHandle(v, None, 'scalar' if np.ndim(v) == 0 else 'other')
         meta = [dict(h.meta[p]) for p in pos]
         if np.ndim(v) == 0:
             return MHandle(v, None, 'scalar')
